@@ -266,6 +266,7 @@ PURE_EXTERNAL = {
     "urllib.parse.urlparse": lambda u, *a, **k: __import__("urllib.parse").parse.urlparse(str(u), *a, **k),
     "urllib.parse.urlsplit": lambda u, *a, **k: __import__("urllib.parse").parse.urlsplit(str(u), *a, **k),
     "glob.has_magic": lambda s_: __import__("glob").has_magic(str(s_)), "glob.escape": lambda s_: __import__("glob").escape(str(s_)),
+    "contextlib.closing": lambda thing: Obj("closing", thing=thing),
     "contextlib.suppress": lambda *excs: Obj("suppress", kinds=[getattr(e, "name", str(e)).rsplit(".", 1)[-1] for e in excs]),
 }
 def _accept_pathlike(fn):
@@ -373,6 +374,7 @@ class _LazyGen:
         self.ready = threading.Semaphore(0)
         self.resume = threading.Semaphore(0)
         self.started = self.finished = self.done = False
+        self._throw = None
         self.exc = None
         self.value = None
 
@@ -394,6 +396,17 @@ class _LazyGen:
         self.value = v
         self.ready.release()
         self.resume.acquire()
+        if self._throw is not None:
+            exc, self._throw = self._throw, None
+            raise exc
+
+    def throw(self, exc):
+        """Resume the generator with `exc` raised at its yield; returns the next yielded value, raises StopIteration if it ends, or what it raises."""
+        if not self.started or self.done:
+            self.done = True
+            raise exc
+        self._throw = exc
+        return self.__next__()
 
     def __next__(self):
         import threading
@@ -562,7 +575,11 @@ class PureInterp:
         if missing:
             raise Raised("TypeError", f"missing arguments {missing}")
         if self._is_generator(finfo):
-            return _LazyGen(self, lambda: self.block(finfo.node.body, env, finfo.module, depth))
+            gen = _LazyGen(self, lambda: self.block(finfo.node.body, env, finfo.module, depth))
+            if any((self.index.canon(d.func if isinstance(d, ast.Call) else d, finfo.module) or "") in ("contextlib.contextmanager", "contextlib.asynccontextmanager")
+                   for d in getattr(finfo.node, "decorator_list", []) if isinstance(d.func if isinstance(d, ast.Call) else d, (ast.Name, ast.Attribute))):
+                return Obj("genctx", gen=gen)      # a context manager made from a generator function
+            return gen
         try:
             self.block(finfo.node.body, env, finfo.module, depth)
         except _Return as r:
@@ -703,18 +720,29 @@ class PureInterp:
                         enter = self._dunder(v, "__enter__")
                         if enter is not None:
                             bound = self.call(enter, (), {}, self_obj=v, depth=depth + 1)
+                        elif isinstance(v, Obj) and v._name == "closing":
+                            bound = v.thing
+                        elif isinstance(v, Obj) and v._name == "genctx":
+                            try:
+                                bound = next(v.gen)          # the generator runs up to its yield
+                            except StopIteration:
+                                raise Raised("RuntimeError", "generator didn't yield")
                         if item.optional_vars is not None:
                             self.assign(item.optional_vars, bound, env, module, depth)
                     self.block(st.body, env, module, depth)
                 except Raised as r_:
                     if not any(isinstance(v, Obj) and v._name == "suppress" and any(_kind_is(r_.kind, k_) for k_ in v.kinds) for v in opened):
+                        body_exc = r_
                         raise
             finally:
                 pending = None
                 for v in reversed(opened):
                     # every context manager's exit runs, also when an inner one raised (as in a real `with a, b:`)
                     try:
-                        self._exit_cm(v, depth)
+                        if isinstance(v, Obj) and v._name == "genctx":
+                            self._exit_genctx(v, pending or locals().get("body_exc"))
+                        else:
+                            self._exit_cm(v, depth)
                     except Raised as exc_:
                         pending = exc_
                 if pending is not None:
@@ -747,6 +775,16 @@ class PureInterp:
                     callee = self.eval(st.exc.func, env, module, depth)
                     if isinstance(callee, ClassInfo):
                         exc.obj = self.eval(st.exc, env, module, depth)
+                    elif isinstance(callee, FuncInfo) or (isinstance(callee, tuple) and callee and callee[0] in ("bound", "closure", "lambda", "partial")):
+                        # `raise make_error(...)` / `raise Cls.for_path(...)`: what is raised is the object the helper returns
+                        val = self.eval(st.exc, env, module, depth)
+                        vcls = val.__dict__["_attrs"].get("__class__") if isinstance(val, Obj) else None
+                        if isinstance(vcls, ClassInfo):
+                            exc = Raised(vcls.name, str(val) if val.__dict__["_attrs"].get("__exc__") else ast.unparse(st)[:80])
+                            exc.obj = val
+                        elif isinstance(val, Obj) and val._name.startswith("exc:"):
+                            exc = Raised(val._name[4:], str(val))
+                            exc.obj = val
                     else:
                         args = [self.eval(a, env, module, depth) for a in st.exc.args if not isinstance(a, ast.Starred)]
                         exc.obj = Obj("exc:" + exc.kind, args=tuple(args))
@@ -940,9 +978,33 @@ class PureInterp:
         if pending is not None:
             raise pending
 
+    def _exit_genctx(self, v, exc):
+        """Leaving the with-block of a @contextmanager function: the generator is resumed after its yield - normally, or with the block's exception raised at the
+        yield (so the `with` statements and try/finally blocks INSIDE the generator see it)."""
+        gen = v.gen
+        if exc is None:
+            try:
+                next(gen)
+            except StopIteration:
+                return
+            raise Raised("RuntimeError", "generator didn't stop")
+        try:
+            gen.throw(exc)
+        except StopIteration:
+            return          # (the generator swallowed the exception; the caller re-raises the original - gwf's helpers never suppress)
+        # the generator re-raised (the usual case): the exception keeps propagating from the with statement
+
     def _exit_cm(self, v, depth):
         if isinstance(v, ModelExecutor):
             v.shutdown()
+        elif isinstance(v, Obj) and v._name == "closing":
+            t = v.thing
+            if isinstance(t, Obj) and t._name == "file":
+                self.events.append(("close", getattr(t, "path", None)))
+            elif isinstance(t, Obj) and self._dunder(t, "close") is not None:
+                self.call(self._dunder(t, "close"), (), {}, self_obj=t, depth=depth + 1)
+            elif isinstance(t, Obj) and "with_exit" in self.hooks:
+                self.hooks["with_exit"](t)
         elif isinstance(v, Obj) and v._name == "file":
             self.events.append(("close", getattr(v, "path", None)))
         elif isinstance(v, Obj) and v._name == "exitstack":
@@ -1227,6 +1289,23 @@ class PureInterp:
                         return cv
                 if ("attr:" + n.attr) in self.hooks:
                     return ("hookattr", n.attr, o)
+                if o._name == "file":
+                    # an open file (stand-in made by an `open` hook): closing it by hand is what leaving its with-block does
+                    if n.attr == "close":
+                        return lambda: self.events.append(("close", o.__dict__["_attrs"].get("path")))
+                    if n.attr == "flush":
+                        return lambda: None
+                    if n.attr == "__enter__":
+                        return lambda: o
+                    if n.attr == "__exit__":
+                        return lambda *a: self.events.append(("close", o.__dict__["_attrs"].get("path")))
+                    if n.attr == "closed":
+                        return False
+                if n.attr in ("close", "__exit__", "__enter__") and "with_exit" in self.hooks and not isinstance(o.__dict__["_attrs"].get("__class__"), ClassInfo):
+                    # a store / backend stand-in of a witness: closing it by hand (or through ExitStack.callback) is what leaving its with-block does
+                    if n.attr == "__enter__":
+                        return lambda: o
+                    return lambda *a: self.hooks["with_exit"](o)
                 if o.__dict__["_attrs"].get("__exc__") or o._name.startswith("exc:"):
                     # what BaseException / click.ClickException give every exception object
                     if n.attr == "format_message":
